@@ -1,7 +1,191 @@
-(* EntryEngine.v — entry points of this area; returns None for codes it does not own *)
-From RBQL Require Import Base Sx.
+(* EntryEngine.v — entry points of the engine model (codes 300-499), instantiated with Expr.eval *)
+From RBQL Require Import Base Sx Value Like Expr Writers Join Agg Engine EntryLike.
+From Coq Require Import QArith.
+
+Definition omap {T U} (o : option T) (f : T -> option U) : option U := match o with Some x => f x | None => None end.
+
+(* ---- decoders ---- *)
+Definition atom_of_sx (x : sx) : option atom :=
+  match x with
+  | L [A 0%N] => Some ANone
+  | L [A 1%N; A b] => Some (ABool (negb (N.eqb b 0)))
+  | L [A 2%N; z] => omap (Z_of_sx z) (fun z => Some (AInt z))
+  | L [A 3%N; s] => omap (str_of_sx s) (fun s => Some (AStr s))
+  | L [A 4%N; n; A d] => omap (Z_of_sx n) (fun n => match d with Npos p => Some (AFlt (Qmake n p)) | N0 => None end)
+  | _ => None
+  end.
+
+Definition tbl_of (n : N) : tbl := if N.eqb n 0 then TA else TB.
+
+Fixpoint expr_of_sx (x : sx) : option expr :=
+  match x with
+  | L (A tag :: args) =>
+      let un (k : expr -> expr) := match args with [a] => omap (expr_of_sx a) (fun a' => Some (k a')) | _ => None end in
+      let bin (k : expr -> expr -> expr) :=
+        match args with
+        | [a; b] => omap (expr_of_sx a) (fun a' => omap (expr_of_sx b) (fun b' => Some (k a' b')))
+        | _ => None
+        end in
+      match tag with
+      | 0%N => match args with [A t; A i] => Some (EFld (tbl_of t) (N.to_nat i)) | _ => None end
+      | 1%N => Some ENR | 2%N => Some ENF | 3%N => Some EBNR | 4%N => Some EBNF | 5%N => Some ENU
+      | 6%N => match args with [a] => omap (atom_of_sx a) (fun a' => Some (ELit a')) | _ => None end
+      | 7%N => bin EAdd | 8%N => bin EEq | 9%N => bin ENe | 10%N => bin ELt | 11%N => bin ELe
+      | 12%N => bin EAnd | 13%N => bin EOr | 14%N => un ENot | 15%N => un ELen | 16%N => un EInt
+      | 17%N => bin ELike
+      | 18%N => match args with
+                | [c; a; b] => omap (expr_of_sx c) (fun c' => omap (expr_of_sx a) (fun a' => omap (expr_of_sx b) (fun b' => Some (ECond c' a' b'))))
+                | _ => None
+                end
+      | 19%N => match args with
+                | [L l] =>
+                    omap ((fix go (l : list sx) : option (list expr) :=
+                             match l with
+                             | [] => Some []
+                             | h :: t => omap (expr_of_sx h) (fun h' => omap (go t) (fun t' => Some (h' :: t')))
+                             end) l) (fun l' => Some (EList l'))
+                | _ => None
+                end
+      | _ => None
+      end
+  | _ => None
+  end.
+
+Definition agg_of (n : N) : option agg_kind :=
+  match n with
+  | 0%N => Some KMin | 1%N => Some KMax | 2%N => Some KSum | 3%N => Some KAvg | 4%N => Some KVar
+  | 5%N => Some KMedian | 6%N => Some KCount | 7%N => Some KArray | 8%N => Some KAny | _ => None
+  end.
+
+Definition item_of_sx (x : sx) : option (item expr) :=
+  match x with
+  | L [A 0%N; e] => omap (expr_of_sx e) (fun e' => Some (IExpr e'))
+  | L [A 1%N] => Some IStar
+  | L [A 2%N] => Some IStarA
+  | L [A 3%N] => Some IStarB
+  | L [A 4%N; e] => omap (expr_of_sx e) (fun e' => Some (IUnnest e'))
+  | L [A 5%N; A k; e] => omap (agg_of k) (fun k' => omap (expr_of_sx e) (fun e' => Some (IAgg k' e')))
+  | _ => None
+  end.
+
+Definition assign_of_sx (x : sx) : option (nat * expr) :=
+  match x with
+  | L [A i; e] => omap (expr_of_sx e) (fun e' => Some (N.to_nat i, e'))
+  | _ => None
+  end.
+
+Definition qkind_of_sx (x : sx) : option (qkind expr) :=
+  match x with
+  | L [A 0%N; items] => omap (list_of_sx item_of_sx items) (fun l => Some (QSelect l))
+  | L [A 1%N; idxs] => omap (list_of_sx nat_of_sx idxs) (fun l => Some (QExcept l))
+  | L [A 2%N; asg] => omap (list_of_sx assign_of_sx asg) (fun l => Some (QUpdate l))
+  | _ => None
+  end.
+
+Definition lkey_of_sx (x : sx) : option lkey :=
+  match x with L [] => Some LNR | L [A i] => Some (LFld (N.to_nat i)) | _ => None end.
+Definition rkey_of_sx (x : sx) : option rkey :=
+  match x with L [] => Some RNR | L [A i] => Some (RFld (N.to_nat i)) | _ => None end.
+
+Definition join_of_sx (x : sx) : option join_spec :=
+  match x with
+  | L [A k; lhs; rhs] =>
+      omap (list_of_sx lkey_of_sx lhs) (fun l => omap (list_of_sx rkey_of_sx rhs) (fun r =>
+        Some {| j_kind := match k with 0%N => JInner | 1%N => JLeft | _ => JStrict end; j_lhs := l; j_rhs := r |}))
+  | _ => None
+  end.
+
+Definition order_of_sx (x : sx) : option (list expr * bool) :=
+  match x with
+  | L [es; A r] => omap (list_of_sx expr_of_sx es) (fun l => Some (l, negb (N.eqb r 0)))
+  | _ => None
+  end.
+
+Definition dmode_of (n : N) : dmode := match n with 0%N => DNo | 1%N => DDistinct | _ => DCount end.
+
+Definition query_of_sx (x : sx) : option (query expr) :=
+  match x with
+  | L [k; wh; jn; gr; od; A dm; tp] =>
+      omap (qkind_of_sx k) (fun k' =>
+      omap (option_of_sx expr_of_sx wh) (fun wh' =>
+      omap (option_of_sx join_of_sx jn) (fun jn' =>
+      omap (option_of_sx (list_of_sx expr_of_sx) gr) (fun gr' =>
+      omap (option_of_sx order_of_sx od) (fun od' =>
+      omap (option_of_sx nat_of_sx tp) (fun tp' =>
+        Some {| q_kind := k'; q_where := wh'; q_join := jn'; q_group := gr'; q_order := od';
+                q_distinct := dmode_of dm; q_top := tp' |}))))))
+  | _ => None
+  end.
+
+Definition table_of_sx (x : sx) : option (list rec) := list_of_sx (list_of_sx atom_of_sx) x.
+
+Definition oracle_of_sx (x : sx) : option (nat -> bool) :=
+  match x with L [] => Some yes | L [A k] => Some (fail_at (N.to_nat k)) | _ => None end.
+
+(* ---- encoders ---- *)
+Definition sx_of_atom (a : atom) : sx :=
+  match a with
+  | ANone => L [A 0]
+  | ABool b => L [A 1; sx_of_bool b]
+  | AInt z => L [A 2; sx_of_Z z]
+  | AStr s => L [A 3; sx_of_str s]
+  | AFlt q => let r := Qred q in L [A 4; sx_of_Z (Qnum r); A (Npos (Qden r))]
+  end%N.
+Definition sx_of_val (v : val) : sx :=
+  match v with VA a => L [A 0%N; sx_of_atom a] | VL l => L [A 1%N; sx_of_list sx_of_atom l] end.
+Definition sx_of_row (r : row) : sx := sx_of_list sx_of_val r.
+
+Definition sx_of_xerr (e : xerr) : sx :=
+  match e with
+  | XType => L [A 0] | XValue => L [A 1] | XBadField i => L [A 2; sx_of_nat i]
+  | XParsing t => L [A 3; A t] | XRuntime t => L [A 4; A t] | XUnmodelled => L [A 5]
+  end%N.
+Definition sx_of_eclass (c : eclass) : sx :=
+  match c with CParsing => A 0 | CRuntime => A 1 | CIO => A 2 | COther => A 3 | CUnmodelled => A 4 end%N.
+
+Definition sx_of_event (e : event) : sx :=
+  match e with
+  | EvHeader h => L [A 0%N; sx_of_option (sx_of_list sx_of_str) h]
+  | EvWrite r ok => L [A 1%N; sx_of_row r; sx_of_bool ok]
+  | EvFinish => L [A 2%N]
+  end.
+
+Definition sx_of_outcome (o : outcome) : sx :=
+  L [ sx_of_list sx_of_event (rev (s_trace (o_chain o)));
+      sx_of_nat (o_pulls o);
+      sx_of_option (fun e => L [sx_of_eclass (fst (fst e)); sx_of_nat (snd (fst e)); sx_of_xerr (snd e)]) (o_error o) ].
+
+(* 300: run   arg = L [fl; query; opt header; A; B; oracle] *)
+Definition ep_run (x : sx) : sx :=
+  match x with
+  | L [f; q; h; ta; tb; orc] =>
+      match fl_of_sx f, query_of_sx q, option_of_sx (list_of_sx str_of_sx) h, table_of_sx ta, table_of_sx tb, oracle_of_sx orc with
+      | Some fl, Some q', Some h', Some a', Some b', Some w =>
+          sx_of_outcome (run (eval fl) w q' h' a' b')
+      | _, _, _, _, _, _ => ERR
+      end
+  | _ => ERR
+  end.
+
+(* 301: chain_spec on explicit (key, row) offers: arg = L [A top-opt..]  — the declarative side of C02 *)
+Definition ep_chain_spec (x : sx) : sx :=
+  match x with
+  | L [tp; A dm; od; es] =>
+      match option_of_sx nat_of_sx tp, option_of_sx bool_of_sx od,
+            list_of_sx (fun e => match e with
+                                 | L [k; r] => omap (list_of_sx atom_of_sx k) (fun k' =>
+                                               omap (list_of_sx atom_of_sx r) (fun r' => Some (k', map VA r')))
+                                 | _ => None end) es with
+      | Some tp', Some od', Some es' =>
+          sx_of_list sx_of_row (chain_spec {| c_top := tp'; c_distinct := dmode_of dm; c_order := od' |} es')
+      | _, _, _ => ERR
+      end
+  | _ => ERR
+  end.
 
 Definition dispatch_engine (code : N) (x : sx) : option sx :=
   match code with
+  | 300%N => Some (ep_run x)
+  | 301%N => Some (ep_chain_spec x)
   | _ => None
   end.
